@@ -477,7 +477,9 @@ def run_conc(ctx, case, yields=None):
                     hist.append(rec)
                 ts[act[1]](src=s, i=ids[s])
                 rec["t1"] = time.monotonic()
-                ts_times.append(rec["t1"])
+                # the CALL time: an event whose trigger call started after a request started
+                # cannot have been handed out by an earlier request
+                ts_times.append((rec["t0"], rec["t1"]))
             elif k == "ev":
                 ids["ev"] += 1
                 rec = {"k": "trig", "src": "ev", "id": ids["ev"], "t0": time.monotonic()}
@@ -527,7 +529,7 @@ def run_conc(ctx, case, yields=None):
                 if ret[0] == "none":
                     # a threadsafe trigger that returned long before this request gave up must
                     # have woken it
-                    if to >= 0.3 and any(t0 < t < t1 - 0.25 for t in ts_times):
+                    if to >= 0.3 and any(t0 < tc and tr < t1 - 0.2 for tc, tr in ts_times):
                         problems.append(("missed-wakeup", {"timeout": to, "elapsed": t1 - t0}))
                     if not th.is_alive():
                         # everything has been sent: wait for arrival, then require two idle rounds
